@@ -30,6 +30,20 @@ theorem admit_iff (env : Env) (now : Time) (rnd : Rnd) (up : Bool) (s : ServerSt
     obtain ⟨⟨c, hc, _⟩, _⟩ := connect_admits env now rnd up s p addr key hk hpre hnew pid cid sk resp hl
     rw [hc]; simp [Except.isOk, Except.toBool]
 
+/-- **admission has no memory.** Two arbitrary server states with the same ticket key in which the endpoint has no entry —
+    e.g. a fresh server, and the same server after it admitted this very CONNECT once and that connection has ended: the same
+    CONNECT at the same instant is admitted by both or by neither. Having been admitted before gains a request nothing; it is
+    judged again by the login check, against the clock (`accepted_request_is_valid`: at most 120 s old). An entry that still
+    exists (its handler has not returned) is the other case: `replayed_connect_inert`. -/
+theorem admission_ignores_history (env : Env) (now : Time) (rnd₁ rnd₂ : Rnd) (up₁ up₂ : Bool) (s₁ s₂ : ServerStream) (p : Packet)
+    (addr : Addr) (key : Bytes) (hk₁ : s₁.key = some key) (hk₂ : s₂.key = some key)
+    (hpre₁ : connectPrecheck env s₁ p addr) (hpre₂ : connectPrecheck env s₂ p addr)
+    (hnew₁ : clientLookup (addr, p.sourcePort, p.sourceType) s₁.clients = none)
+    (hnew₂ : clientLookup (addr, p.sourcePort, p.sourceType) s₂.clients = none) :
+    (clientLookup (addr, p.sourcePort, p.sourceType) (s₁.processConnect env now rnd₁ up₁ p addr).s.clients).isSome ↔
+    (clientLookup (addr, p.sourcePort, p.sourceType) (s₂.processConnect env now rnd₂ up₂ p addr).s.clients).isSome := by
+  rw [admit_iff env now rnd₁ up₁ s₁ p addr key hk₁ hpre₁ hnew₁, admit_iff env now rnd₂ up₂ s₂ p addr key hk₂ hpre₂ hnew₂]
+
 /-- the admitted connection is authenticated as the ticket's user with the ticket's session key, and the handler starts -/
 theorem admitted_identity (env : Env) (now : Time) (rnd : Rnd) (up : Bool) (s : ServerStream) (p : Packet) (addr : Addr)
     (key : Bytes) (hk : s.key = some key) (hpre : connectPrecheck env s p addr)
